@@ -528,17 +528,36 @@ func runUnsubAll(c *core.Ctx) {
 	}
 	c.CountFuncs(1)
 	var d *ssa.Defer
+	idPath, regPath := "", ""
 	an.Instrs(serve, func(in ssa.Instruction) {
-		if df, ok := in.(*ssa.Defer); ok && strings.HasSuffix(an.CalleeName(&df.Call), "subscribers).UnsubscribeAll") {
+		df, ok := in.(*ssa.Defer)
+		if !ok {
+			return
+		}
+		if strings.HasSuffix(an.CalleeName(&df.Call), "subscribers).UnsubscribeAll") {
 			d = df
+			idPath = an.PathOf(df.Call.Args[len(df.Call.Args)-1])
+			regPath = an.PathOf(df.Call.Args[0])
+			return
+		}
+		// a method of the per-connection value that does nothing but that (`defer ss.unsubscribeAll()`)
+		h := an.StaticCallee(&df.Call)
+		if h == nil || !an.PrivateHelper(h) || len(h.Blocks) != 1 || len(h.Params) != len(df.Call.Args) {
+			return
+		}
+		for _, ci := range calls(h) {
+			if inner, isCall := ci.(*ssa.Call); isCall && strings.HasSuffix(an.CalleeName(&inner.Call), "subscribers).UnsubscribeAll") {
+				d = df
+				idPath = an.PathOfIn(inner.Call.Args[len(inner.Call.Args)-1], &df.Call)
+				regPath = an.PathOfIn(inner.Call.Args[0], &df.Call)
+			}
 		}
 	})
 	if d == nil {
 		c.Bad(nil, fname(c, serve), "defer UnsubscribeAll", P.Pos(serve.Pos()), "the router session does not defer UnsubscribeAll: subscriptions of a finished connection stay in the registry and keep receiving events")
 		return
 	}
-	idPath := an.PathOf(d.Call.Args[len(d.Call.Args)-1])
-	good := strings.HasSuffix(an.PathOf(d.Call.Args[0]), "recv.subs")
+	good := strings.HasSuffix(regPath, "recv.subs")
 	why := ""
 	// same id is handed down as the session id to whatever subscribes
 	sameID := false
@@ -552,7 +571,9 @@ func runUnsubAll(c *core.Ctx) {
 			return
 		}
 		for _, a := range call.Call.Args {
-			if an.PathOf(a) == idPath {
+			ap := an.PathOf(a)
+			// the id itself, or a per-connection value built around it (`ss := newSession(id); … ss.recv(…)`)
+			if ap == idPath || strings.HasPrefix(ap, "&lit{") && (strings.Contains(ap, "="+idPath+",") || strings.Contains(ap, "="+idPath+"}")) {
 				sameID = true
 			}
 		}
